@@ -25,7 +25,7 @@ def check_lifecycle(run, n_workers, labels, start_jobs_without_delay=True):
 
     for e in run.events:
         k = e["kind"]
-        if k in ("loop_start", "crit", "sleep", "cb.start", "cb.resume", "cb.result", "cb.complete", "tuning_start", "script.report", "script.exit", "script.killed", "script.start", "be.copy_checkpoint", "be.delete_checkpoint"):
+        if k in ("loop_start", "crit", "sleep", "cb.start", "cb.resume", "cb.result", "cb.complete", "tuning_start", "script.report", "script.exit", "script.killed", "script.start", "script.external_stop", "be.copy_checkpoint", "be.delete_checkpoint"):
             if k == "loop_start":
                 pass
             continue
